@@ -38,8 +38,8 @@ def kids (b : String) (a : Json) : P (List String) := do
   let f (k : String) := getBool a k
   match b with
   | "point" => pure (CR.XmlW.pointKids (← f "z"))
-  | "rectangle" => pure (CR.XmlW.rectangleKids (← f "dyn"))
-  | "circle" => pure (CR.XmlW.circleKids (← f "dyn"))
+  | "rectangle" => pure (CR.XmlW.rectangleKids (← f "dyn") (← f "ori") (← f "ctr"))
+  | "circle" => pure (CR.XmlW.circleKids (← f "dyn") (← f "ctr"))
   | "polygon" => pure (CR.XmlW.polygonKids (← n "n"))
   | "shape" => pure (CR.XmlW.shapeKids (← getList shapeK a "kinds"))
   | "bound" => pure (CR.XmlW.boundKids (← n "n") (← f "marking"))
@@ -74,7 +74,7 @@ def kids (b : String) (a : Json) : P (List String) := do
   | "occupancySet" => pure (CR.XmlW.occupancySetKids (← n "n"))
   | "signalSeries" => pure (CR.XmlW.signalSeriesKids (← n "n"))
   | "value" => pure (CR.XmlW.valueKids (← f "interval"))
-  | "signalState" => pure (CR.XmlW.signalStateKids (← f "il") (← f "ir") (← f "bl") (← f "hz") (← f "fb"))
+  | "signalState" => pure (CR.XmlW.signalStateKids (← f "horn") (← f "il") (← f "ir") (← f "bl") (← f "hz") (← f "fb"))
   | "state" => pure (CR.XmlW.stateKids (← getList asStr a "attrs"))
   | "planningProblem" => pure (CR.XmlW.planningProblemKids (← n "goals"))
   | "scenarioTags" => pure (CR.XmlW.tagKids (← getList asStr a "tags"))
